@@ -308,6 +308,7 @@ type ProbeSpec struct {
 	BoolResult bool // what IsBoolFlag returns (when present)
 	FailAt     int  // the FailAt-th Set call in the run phase fails (0 = never)
 	FailDecl   int  // the FailDecl-th Set call in the declaration phase fails (0 = never)
+	Unhashable bool // the value's dynamic type is a slice type (with Clear): it cannot be a map key nor be compared
 	ErrKind    int  // which error a failing Set returns (see probeErrors)
 	YieldInSet bool // scheduled worlds: a Run-phase Set is a scheduling point (the value type is simulator-owned code)
 }
@@ -322,6 +323,9 @@ func (s *ProbeSpec) Describe() string {
 	}
 	if s.HasDefault {
 		r += "IsDefault "
+	}
+	if s.Unhashable {
+		r += "unhashable-slice-type "
 	}
 	if s.FailAt > 0 {
 		r += fmt.Sprintf("SetFailsAtRunCall=%d(%T %q) ", s.FailAt, probeErrors[(s.ErrKind+1)%len(probeErrors)], probeErrors[(s.ErrKind+1)%len(probeErrors)].Error())
@@ -445,8 +449,18 @@ func (p pBD) IsDefault() bool   { return p.isDefault() }
 func (p pCD) IsDefault() bool   { return p.isDefault() }
 func (p pBCD) IsDefault() bool  { return p.isDefault() }
 
+// pUnhashC: a multi-valued user type whose dynamic type is a slice (like `type labels map[string]string`)
+type pUnhashC []*probeCore
+
+func (p pUnhashC) Set(s string) error { return p[0].Set(s) }
+func (p pUnhashC) String() string     { return p[0].String() }
+func (p pUnhashC) Clear()             { p[0].clear() }
+
 func newProbe(spec *ProbeSpec, inst *Instance, name string) (flag.Value, *probeCore) {
 	c := &probeCore{spec: spec, inst: inst, proc: inst.Proc, name: name}
+	if spec.Unhashable {
+		return pUnhashC{c}, c
+	}
 	switch {
 	case spec.HasBool && spec.HasClear && spec.HasDefault:
 		return pBCD{c}, c
